@@ -92,6 +92,12 @@ func GenFunc(prog *Prog, fn *ssa.Function, fc *FuncContract) *VC {
 		enc.notes["global invariant "+u+" assumed at entry (established by the package initialiser's contract, preserved per the global-frame obligation)"] = true
 	}
 	vc.runBody(fr, st0, "true")
+	for _, ac := range fc.AtReturns {
+		if ac.Applied == 0 {
+			vc.errorf("atreturn clause %q of %s could be evaluated at no return statement (stale clause)", ac.Text, fn.Name())
+		}
+		ac.Applied, ac.Skipped = 0, 0
+	}
 	for _, lc := range fc.Loops {
 		for _, sc := range lc.Steps {
 			if sc.Applied == 0 {
